@@ -1041,6 +1041,10 @@ func rulesC03(r *Run) {
 	// recovery records a sequence with a failed action as Failed (mutation sweep)
 	ruleFixSeqVerdicts(r, "R4")
 	ruleExecSeqFailedReturnsError(r, "R4")
+	// "a block ends Failed exactly when … one of its checks failed": a group found Failed after a restart is run again or fails the
+	// block, never skipped (round-4 seed C03-8; = C10-R3)
+	ruleFailedGroupNotPassed(r, "R4", smKey("BlockPostChecks"), "PostChecks")
+	ruleFailedGroupNotPassed(r, "R4", smKey("BlockDeferredChecks"), "DeferredChecks")
 	r.Expect("R4", 9)
 
 	// ---- R5: "… or one of its checks failed": a failing block-level check reaches the block's verdict
